@@ -450,3 +450,29 @@ CHECKS["C15"] = {
 }
 
 CHECKS["C03"]["prebuild"] = DRV_PREBUILD
+
+PAM_PREBUILD = [{"cmd": ["clang", "-g", "-O1", "-fsanitize=address,undefined", "-fno-sanitize-recover=undefined", "-fno-omit-frame-pointer",
+                         "-I", "{staged}/zz_verif/vpam/c/stubs", "-o", "{bin}/pamdrv", "{staged}/pam/pam_whawty.c", "{staged}/zz_verif/vpam/c/pamdrv.c"]}]
+
+CHECKS["C20"] = {
+    "level": "exploration",
+    "engine": "E6 PAM",
+    "prebuild": PAM_PREBUILD,
+    "level_text": "pam_whawty.c is compiled unmodified with AddressSanitizer + UBSan against stub PAM headers and linked with a driver that implements the libpam calls from a case description. "
+                  "rapid generates user / password strings (0..4096 bytes, high and special bytes), option sets, password sources (stack, conversation, failing), and server behaviours: no socket, "
+                  "listener that never accepts, server closing while the module is held at its first select (deterministic gate), scripted replies (OK/NO/near-miss texts, announced lengths 0/1/2/256/257/65535, "
+                  "more/fewer bytes than announced, cut at any byte, fragments with silences of 0.3x and 1.6x the timeout, close or keep-open). A second test runs the module against the real sasl.Server.",
+    "level_note": "Trusted: the stub headers (Linux-PAM constants and the two macros), the reader model in expectOK(). Silences are 0.3x / 1.6x the 1 s timeout; a timing-sensitive case that fails is repeated "
+                  "up to three times before it counts (a deterministic defect reproduces, a scheduling stall does not).",
+    "technique": "property-based testing (rapid) of a sanitizer-instrumented C module against a scripted peer; reference reader model as oracle; libFuzzer target in thorough",
+    "oracle": "rc = PAM_SUCCESS <=> the bytes the module can read under its own protocol (2 length bytes, min(len,256) bytes, every needed piece within the timeout) start with OK; otherwise a non-success code; "
+              "exit by return (no signal), no ASan/UBSan/LSan report, bounded time; request bytes = reference encoding of (user[:256], password[:256], '', ''); against sasl.Server: verdict = callback's",
+    "rule": "a case = one module invocation. Non-trivial = a reply that is cut, delayed, mis-sized or not plain OK, a non-scripted server behaviour, or a user >= 255 bytes; distinct = distinct "
+            "(server behaviour, reply class, fragmented, slow, end, option set)",
+    "assumptions": ["user and password are C strings (no NUL)"],
+    "required_classes": {"all": ["server:gate-close", "server:none", "server:noaccept", "server:script", "expected-success:true", "expected-success:false", "reply-with-silence-beyond-timeout", "real-server-roundtrip"]},
+    "jobs": [
+        J("module", VPAM, "TestC20Module", {"shards": 8, "checks": 50, "timeout": 600}, {"shards": 16, "checks": 1500}),
+        J("realserver", VPAM, "TestC20AgainstRealServer", {"shards": 2, "checks": 40}, {"shards": 8, "checks": 800}),
+    ],
+}
